@@ -127,7 +127,7 @@ static void pump_back(void)
 {
 	int r, guard = 0;
 	nframes = 0;
-	in->_vptr->next(in, POLLIN | POLLOUT);     /* flushes pending output */
+	in->_vptr->next(in, POLLOUT);              /* flushes pending output */
 	nwire = recv(sv[1], wire, sizeof(wire), MSG_PEEK | MSG_DONTWAIT);   /* diagnostic only */
 	if (mpt_stream_poll(&peer, POLLIN, 0) < 0) return;
 	do {
